@@ -8,20 +8,20 @@ replayed too and every observed byte must agree with what the engine computed (t
 import json, os, time
 from common import *
 
-NATIVE_WRAPS = '-Wl,--wrap=malloc,--wrap=calloc,--wrap=realloc,--wrap=strdup,--wrap=fopen,--wrap=fwrite,--wrap=fflush,--wrap=fclose,--wrap=open,--wrap=remove'
+NATIVE_WRAPS = '-Wl,--wrap=fread,--wrap=malloc,--wrap=calloc,--wrap=realloc,--wrap=strdup,--wrap=fopen,--wrap=fwrite,--wrap=fflush,--wrap=fclose,--wrap=open,--wrap=remove'
 BASE_STUBS = ['libc memory/string functions (symx/models.py)', 'malloc/calloc/realloc/free: engine object table']
 
 
 class E2:
     def __init__(self, name, harness, sources=(), defines=(), entry='harness', max_paths=100000, max_steps=3_000_000, timeout=300,
                  bounds='', functions=(), stubs=(), assumptions=(), leaks=False, summaries=(), exclude=None, weight=1, validate=3,
-                 ref=(), max_depth=120, fork_max=8, all_lib=False, opt=None, expect_paths_min=1, native_replay=True, mem_gb=12,
+                 ref=(), max_depth=120, fork_max=8, all_lib=False, opt=None, openmp=False, expect_paths_min=1, native_replay=True, mem_gb=12,
                  unconfirmed_ok_kinds=()):
         self.name = name; self.harness = harness; self.sources = list(sources); self.defines = list(defines); self.entry = entry
         self.max_paths = max_paths; self.max_steps = max_steps; self.timeout = timeout; self.bounds = bounds
         self.functions = list(functions); self.stubs = list(stubs); self.assumptions = list(assumptions); self.leaks = leaks
         self.summaries = list(summaries); self.exclude = exclude; self.weight = weight; self.validate = validate; self.ref = list(ref)
-        self.max_depth = max_depth; self.fork_max = fork_max; self.all_lib = all_lib; self.opt = opt
+        self.openmp = openmp; self.max_depth = max_depth; self.fork_max = fork_max; self.all_lib = all_lib; self.opt = opt
         self.expect_paths_min = expect_paths_min; self.native_replay = native_replay; self.mem_gb = mem_gb
         self.engine = 'E2/symx'
         if all_lib:
@@ -29,7 +29,7 @@ class E2:
 
     def _build_ir(self, d, extra_defs):
         incs = ['-I' + os.path.join(VERIF, 'models', 'immintrin')] + REAL_INCS + ['-I' + os.path.join(VERIF, 'harness'), '-I' + os.path.join(VERIF, 'ref')]
-        base = ['clang-14', '-std=gnu11', '-O0', '-Xclang', '-disable-O0-optnone', '-S', '-emit-llvm', '-w', '-fno-builtin', '-DVERIF_SYMX', '-D_OPENMP=201511'] + REAL_DEFS + incs + self.defines + list(extra_defs)
+        base = ['clang-14', '-std=gnu11', '-O0', '-Xclang', '-disable-O0-optnone', '-S', '-emit-llvm', '-w', '-fno-builtin', '-DVERIF_SYMX'] + (['-fopenmp'] if self.openmp else ['-D_OPENMP=201511']) + REAL_DEFS + incs + self.defines + list(extra_defs)
         units = [os.path.join(VERIF, self.harness)] + [repo_path(s) for s in self.sources] + [os.path.join(VERIF, 'ref', r) for r in self.ref]
         lls = []
         def one(iu):
@@ -87,7 +87,7 @@ class E2:
         if viol:
             seen = {}
             for v in viol:
-                seen.setdefault((v['kind'], v['msg'][:80], v['where'], v.get('failed_alloc'), v.get('io_failed'), v.get('io_fail_op')), v)
+                seen.setdefault((v['kind'], v['msg'][:80], v['where'], v.get('failed_alloc'), v.get('io_failed'), v.get('io_fail_op'), str(v.get('interfered'))), v)
             uniq = list(seen.values())
             confirmed = None; reports = []
             for v in uniq[:12]:
@@ -96,7 +96,7 @@ class E2:
                 if rep.get('verdict') == 'reproduced' and confirmed is None:
                     confirmed = (v, rep)
             payload = {'property': pid, 'obligation': self.name, 'engine': self.engine, 'harness': self.harness, 'defines': self.defines + extra,
-                       'violations': [{k: v[k] for k in ('kind', 'msg', 'where', 'model', 'choices', 'failed_alloc', 'io_failed', 'io_fail_op', 'notes') if k in v} for v in uniq[:40]],
+                       'violations': [{k: v[k] for k in ('kind', 'msg', 'where', 'model', 'choices', 'failed_alloc', 'io_failed', 'io_fail_op', 'interfered', 'notes') if k in v} for v in uniq[:40]],
                        'native_replay': reports, 'total_violating_paths': len(viol)}
             path = save_replay(pid, self.name, payload)
             if confirmed:
@@ -161,7 +161,10 @@ class E2:
                 f.write('failalloc %d\n' % v['failed_alloc'])
             if v.get('io_failed'):
                 f.write('failio %d %s\n' % (v.get('io_fail_op') or 0, v['io_failed']))
+            if v.get('interfered'):
+                f.write('interfere %d %d\n' % (v['interfered'][0], v['interfered'][1]))
         env = dict(os.environ); env['SYMX_INPUT'] = inp; env['SYMX_TMP'] = tmp
+        env['OMP_NUM_THREADS'] = '1'     # the engine explores the sequential schedule of the OpenMP loops; real interleavings are C07's subject
         env['ASAN_OPTIONS'] = 'detect_leaks=%d:exitcode=99:allocator_may_return_null=1' % (1 if self.leaks else 0)
         rc, out, err, secs, to = run([self._native_exe], timeout=60, env=env, cwd=tmp)
         txt = out + err
